@@ -17,7 +17,9 @@ RULE = ('(a) every state of the bounded BFS over bisection sequences (depth <= 2
         'included), followed by refine_grading(sigma, K=4). Cases whose graded mesh is predicted (by the sweep on '
         'the reference model) to exceed the leaf cap are excluded and counted. Oracle: returns without exception, '
         'result refines the previous mesh, every leaf has h_t/K < h_x^sigma < K*h_t, result is a 1-irregular '
-        'bisection tiling with consistent bookkeeping and neighbours. Non-trivial = the grading changed the mesh; '
+        'bisection tiling with consistent bookkeeping and neighbours; (c) meshes built to contain a leaf exactly on the '
+        'boundary of the window (every dyadic solution of h_x^sigma = K h_t or h_t/K = h_x^sigma with space level <= 5), '
+        'which a strict window must refine. Non-trivial = the grading changed the mesh; '
         'the histogram also counts cases in which a space-marked element was overtaken by the time closure in the '
         'same sweep (the situation of the repaired defect); distinct by case.')
 ASSUMPTIONS = ['uniqueness / minimality of the graded mesh is not claimed by the property and not asserted',
@@ -100,10 +102,42 @@ def grade_and_check(live, sigma, rec, case, cap):
         rec.violation('C19/after/neighbours_%s' % clause, detail, case)
 
 
+def boundary_cases():
+    """leaves sitting exactly on the boundary of the parabolic window (h_x^sigma == K h_t or h_t / K == h_x^sigma in
+    exact dyadic arithmetic) on unit-size roots, for every solution with space level <= 5 and time level <= 12"""
+    out = []
+    specs = [{'kind': 'param', 'curve': 'UnitSquare', 'ts': [0.0, 1.0], 'xs': None},
+             {'kind': 'abstract', 'glue': False, 'xs': [0.0, 1.0, 2.0], 'ts': [0.0, 1.0]},
+             {'kind': 'param', 'curve': 'LShape', 'ts': [0.0, 1.0], 'xs': [0.0, 1.0, 2.0, 3.0, 4.0, 5.0, 6.0, 7.0, 8.0]}]
+    for sigma in (1.0, 1.5, 2.0):
+        for lx in range(0, 6):
+            e = sigma * lx
+            if e != int(e):
+                continue
+            for lt in (int(e) + 2, int(e) - 2):
+                if 0 <= lt <= 12:
+                    for si, spec in enumerate(specs):
+                        for pos in (0, 1):
+                            out.append({'kind': 'boundary', 'mesh': spec, 'sigma': sigma, 'lt': lt, 'lx': lx, 'pos': pos})
+    return out
+
+
 def body(case, rec, cap):
     rec.case()
     try:
-        if case['kind'] == 'bfs':
+        if case['kind'] == 'boundary':
+            from vlib import pairs
+            probe = Live(case['mesh'])
+            lt, lx = case['lt'], case['lx']
+            kt = ((1 << lt) - 1) if case['pos'] else 0
+            kx = ((1 << lx) // 2) if case['pos'] else 0
+            tg = pairs.box_from(probe.n_t, probe.n_x, kt * (pairs.UU >> lt), lt, kx * (pairs.UU >> lx), lx, probe.glued)
+            live, ok = pairs.mesh_with(case['mesh'], [tg], max_leaves=cap)
+            if not ok:
+                rec.exclude('boundary_target_not_reached')
+                return
+            rec.cls('leaf_on_window_boundary')
+        elif case['kind'] == 'bfs':
             live, _ = meshdrive.replay_seq(case['mesh'], case['seq'])
         else:
             live = Live(case['mesh'])
@@ -118,7 +152,7 @@ def body(case, rec, cap):
         return
     rec.cls('mesh_' + (case['mesh'].get('curve') or 'abstract'))
     grade_and_check(live, float(case['sigma']), rec, case, cap)
-    if len(rec.samples) < 6 and case['kind'] != 'bfs' and len(case['ops']) >= 3:
+    if len(rec.samples) < 6 and case['kind'] == 'history' and len(case['ops']) >= 3:
         rec.sample(case)
 
 
@@ -150,8 +184,10 @@ def run(ctx):
     jobs = [(mno, seq, s) for mno, seq in seqs for s in (1.0, 1.5, 2.0)]
     for mno, seq, s in ctx.mine(jobs):
         body({'kind': 'bfs', 'mesh': meshdrive.BFS_MESHES[mno], 'seq': seq, 'sigma': s}, ctx.rec, cap)
+    for case in ctx.mine(boundary_cases()):
+        body(case, ctx.rec, cap)
     # (b) histories
-    n = ctx.share(320 if ctx.quick else 10000)
+    n = ctx.share(1200 if ctx.quick else 20000)
     explore(ctx, cases(25 if ctx.quick else 60), lambda c, r: body(c, r, cap), n)
 
 
